@@ -293,20 +293,41 @@ class NB:
         LOG.append(("b", self))
 
 
+class Leaf:
+    def __init__(self, d: int = -1):
+        self.d = d
+        LOG.append(("inner", self))  # the object holding the linked parameter is logged as "inner" at either depth
+
+
+class Mid:
+    def __init__(self, leaf: Leaf, m: int = 0):
+        self.leaf = leaf
+        LOG.append(("mid", self))
+
+
+class NB2:
+    """Like NB, but the linked parameter sits two levels down: inner (Mid) -> leaf (Leaf) -> d."""
+
+    def __init__(self, inner: Mid, x: int = 0, y_a: int = -1, y_c: int = -1):
+        self.inner, self.x, self.y_a, self.y_c, self.out = inner, x, y_a, y_c, x + 2
+        LOG.append(("b", self))
+
+
 class NC:
     def __init__(self, x: int = 0, y_a: int = -1, y_b: int = -1):
         self.x, self.y_a, self.y_b, self.out = x, y_a, y_b, x + 3
         LOG.append(("c", self))
 
 
-def _nested_once(decl, bits, nested_pos, src, xs):
+def _nested_once(decl, bits, nested_pos, src, xs, depth=1):
     """Components a, b, c; b holds a nested class argument `inner`. One link feeds `b.inner.init_args.d` from another
     component (a nested target: it is built as part of b, so its source must be built before b); the other links are a
     solver-chosen subset of the six plain ones; nested_pos says after how many of them the nested link is added."""
     from jsonargparse import ArgumentParser
 
     names = ["a", "b", "c"]
-    classes = {"a": NA, "b": NB, "c": NC}
+    classes = {"a": NA, "b": NB if depth == 1 else NB2, "c": NC}
+    nested_target = "b.inner.init_args.d" if depth == 1 else "b.inner.init_args.leaf.init_args.d"
     parser = ArgumentParser(exit_on_error=False)
     for name in decl:
         parser.add_class_arguments(classes[name], name)
@@ -318,7 +339,7 @@ def _nested_once(decl, bits, nested_pos, src, xs):
         would = edges + [(names.index(s), names.index(t))]
         cyc = _cyclic(3, would)
         try:
-            parser.link_arguments(f"{s}.out", "b.inner.init_args.d" if kind == "nested" else f"{t}.y_{s}", apply_on="instantiate")
+            parser.link_arguments(f"{s}.out", nested_target if kind == "nested" else f"{t}.y_{s}", apply_on="instantiate")
             raised = False
         except ValueError:
             raised = True
@@ -330,7 +351,7 @@ def _nested_once(decl, bits, nested_pos, src, xs):
         edges = would
     S.note(f"links={len(edges)}")
     obj = {n: {"x": xs[n]} for n in names}
-    obj["b"]["inner"] = {"class_path": f"{__name__}.Inner"}
+    obj["b"]["inner"] = {"class_path": f"{__name__}.Inner"} if depth == 1 else {"class_path": f"{__name__}.Mid", "init_args": {"leaf": {"class_path": f"{__name__}.Leaf"}}}
     cfg = parser.parse_object(obj)
     del LOG[:]
     try:
@@ -340,14 +361,15 @@ def _nested_once(decl, bits, nested_pos, src, xs):
             return Fail("nested:instantiation-failed", edges=edges)
         raise
     built = [n for n, _ in LOG]
-    if sorted(built) != ["a", "b", "c", "inner"]:
+    if sorted(built) != (["a", "b", "c", "inner"] if depth == 1 else ["a", "b", "c", "inner", "mid"]):
         return Fail("nested:not-exactly-once", built=built)
     where = {n: i for i, n in enumerate(built)}
     for si, ti in edges:
         if where[names[si]] >= where[names[ti]]:
             return Fail("nested:target-built-before-source", built=built, edges=edges)
     objs = dict(LOG)
-    if init["b"] is not objs["b"] or objs["b"].inner is not objs["inner"]:
+    holder = objs["b"].inner if depth == 1 else objs["b"].inner.leaf
+    if init["b"] is not objs["b"] or holder is not objs["inner"]:
         return Fail("nested:result-is-not-the-constructed-object")
     got = objs["inner"].d
     if not isinstance(got, int) or got != objs[src].out:
@@ -362,9 +384,9 @@ def _nested_once(decl, bits, nested_pos, src, xs):
     return True
 
 
-def nested(decl, src, shard=None):
+def nested(decl, src, shard=None, depth=1):
     decl = list(decl)
-    _nested_once(decl, [False] * 6, 0, src, {n: 1 for n in "abc"})
+    _nested_once(decl, [False] * 6, 0, src, {n: 1 for n in "abc"}, depth)
 
     def harness():
         bits = [S.flag(f"link{n}") for n in range(6)]
@@ -374,7 +396,7 @@ def nested(decl, src, shard=None):
         if nested_pos > sum(1 for b in bits if b):
             return None
         xs = {n: S.int(f"x_{n}") for n in "abc"}
-        return _nested_once(decl, bits, nested_pos, src, xs)
+        return _nested_once(decl, bits, nested_pos, src, xs, depth)
 
     return harness
 
@@ -407,6 +429,49 @@ def self_links(payload):
                 bad.append(f"link_arguments({src!r}, {tgt!r}) after {prior} other link(s)")
             except ValueError:
                 pass
+    return dict(bad=bad, reproduced=bool(bad), detail=str(bad))
+
+
+class SrcNone:
+    """A source whose attribute exists and is None for x == 0."""
+
+    def __init__(self, x: int = 0):
+        self.x = x
+        self.attr = None if x == 0 else x
+
+
+class SrcNoneSub(SrcNone):
+    pass
+
+
+class TgtOpt:
+    def __init__(self, p: "typing.Optional[int]" = 5):
+        self.p = p
+
+
+import typing  # noqa: E402
+
+
+def none_attr(payload):
+    """The target receives the source's attribute also when that attribute is None (class group and subclass-typed sources)."""
+    from jsonargparse import ArgumentParser
+
+    bad = []
+    for typed in (False, True):
+        for x in (0, 3):
+            for with_fn in (False, True):
+                parser = ArgumentParser(exit_on_error=False)
+                if typed:
+                    parser.add_subclass_arguments(SrcNone, "s")
+                else:
+                    parser.add_class_arguments(SrcNone, "s")
+                parser.add_class_arguments(TgtOpt, "t")
+                parser.link_arguments("s.attr", "t.p", compute_fn=(lambda v: v) if with_fn else None, apply_on="instantiate")
+                obj = {"s": {"class_path": f"{__name__}.SrcNoneSub", "init_args": {"x": x}}} if typed else {"s": {"x": x}}
+                init = parser.instantiate_classes(parser.parse_object(obj))
+                want = None if x == 0 else x
+                if init.t.p != want or (init.t.p is None) != (want is None):
+                    bad.append(f"source {'subclass argument' if typed else 'class group'} with attr={want!r}{' through compute_fn' if with_fn else ''}: target received {init.t.p!r}")
     return dict(bad=bad, reproduced=bool(bad), detail=str(bad))
 
 
@@ -470,6 +535,9 @@ def main(rep, tier):
         for decl in ((("b", "c", "a"),) if tier == "quick" else itertools.permutations(("a", "b", "c"))):
             for sh in range(8):
                 jobs.append(dict(module="c16", func="nested", kwargs=dict(decl=list(decl), src=src, shard=sh), timeout=600 if tier == "quick" else 1800))
+    for src in (("c",) if tier == "quick" else ("a", "c")):  # the linked parameter two levels below the component (b.inner.init_args.leaf.init_args.d)
+        for sh in range(8):
+            jobs.append(dict(module="c16", func="nested", kwargs=dict(decl=["b", "c", "a"], src=src, shard=sh, depth=2), timeout=600 if tier == "quick" else 1800))
     if tier == "thorough":
         for sh in range(16):
             jobs.append(dict(module="c16", func="e2e", kwargs=dict(names=["a", "b", "c"], decl=["c", "a", "b"], shard=sh, shard_bits=4, typed=["b"]), timeout=1800))
@@ -481,6 +549,11 @@ def main(rep, tier):
     rep.extra["self_link_cases"] = bad or "all refused when added"
     for b in bad:
         rep.violation(f"self-loop link accepted: {b}", dict(module="props.c16", func="self_links", payload={}))
+    bad = run_native("props.c16", "none_attr", {}).get("bad", [])
+    rep.evaluations += 1
+    rep.extra["none_attribute_cases"] = bad or "target receives None in all 8 cases"
+    for b in bad:
+        rep.violation(f"link source attribute None: {b}", dict(module="props.c16", func="none_attr", payload={}))
     for cls, samples in fails.items():
         s = samples[0]
         v = s["values"]
